@@ -246,3 +246,37 @@ M.append(dict(kind="fire", pid="C03", file=B, old="    # Now that we know the to
               more=[("    # Finally go assemble the bytes and the line mapping\n", "    for block_index, block in enumerate(blocks):\n        for instruction_index, instruction in enumerate(block):\n            arg = instruction.arg\n            if isinstance(arg, Freevar):\n                args[block_index, instruction_index] += len(cellvars)\n\n    # Finally go assemble the bytes and the line mapping\n")], why="the original defect: an operand grows after the layout (R03.7)"))
 M.append(dict(kind="fire", pid="C03", file=B, old="    _hash_fn: Callable[[T], Hashable] = field(default=_identity)\n\n    def __setitem__", new="    _hash_fn: Callable[[T], Hashable] = field(default=hash)\n\n    def __setitem__", why="the original defect: tables keyed by hash (R03.3)"))
 fire("C03", L, "        # Stays none if there is no bytecode\n        bytecode_offset = None\n", "", "the original defect: loop variable read after an empty loop (R03.U)")
+# ---- rules added after the round-5 seeded changes
+H = "code_data/dataclass_hide_default.py"
+fire("C02", B, "        arg |= b[i + 1]\n        n_args += 1\n        if opcode == dis.EXTENDED_ARG:\n            arg = arg << 8\n",
+     "        n_args += 1\n        if opcode == dis.EXTENDED_ARG:\n            arg |= b[i + 1] << 8\n", "prefix byte not shifted above earlier ones (R02.8)")
+M.append(dict(kind="fire", pid="C02", file=B, old="        arg |= b[i + 1]\n        n_args += 1\n        if opcode == dis.EXTENDED_ARG:\n            arg = arg << 8\n",
+              new="        n_args += 1\n        if opcode == dis.EXTENDED_ARG:\n            arg |= b[i + 1] << 8\n",
+              more=[("            first_offset = i - ((n_args - 1) * 2)\n", "            arg |= b[i + 1]\n            first_offset = i - ((n_args - 1) * 2)\n")], why="one-prefix case right, two prefixes wrong (R02.8)"))
+silent(["C02", "C09", "C13", "C03"], B, "        arg |= b[i + 1]\n        n_args += 1\n        if opcode == dis.EXTENDED_ARG:\n            arg = arg << 8\n",
+       "        arg = arg | b[i + 1]\n        n_args += 1\n        if opcode == dis.EXTENDED_ARG:\n            arg = arg * 256\n", "same accumulation spelled with * 256")
+fire("C02", "code_data/_constants.py", "    if isinstance(value, (str, type(None), bytes, type(...))):", "    if isinstance(value, (str, type(None), bytes)):", "Ellipsis constants have no key: from_code raises (R02.K)")
+silent(["C02", "C08"], "code_data/_constants.py", "    if isinstance(value, (bool, int)):\n        return (type(value), value)", "    tp = type(value)\n    if tp in (bool, int):\n        return (tp, value)", "exact-type dispatch, same key")
+fire("C08", I, "        if not isinstance(__o, Constant):\n            return False\n", "        if not isinstance(__o, Constant):\n            return False\n        if self.constant is __o.constant:\n            return True\n", "shortcut skips the override (R08.2)")
+silent(["C08", "C14"], I, "        if not isinstance(__o, Constant):\n            return False\n", "        if self is __o:\n            return True\n        if not isinstance(__o, Constant):\n            return False\n", "identity shortcut on the whole value")
+fire("C14", I, "        if self._index_override != __o._index_override:", "        if self._index_override is not __o._index_override:", "identity of ints in __eq__ (R14.T / R08.2)")
+fire("C10", L, "            (item if is_linetable else prev_item).line_offset == 0\n", "            0 in (item.line_offset, prev_item.line_offset)\n", "(254,0)(n,d) merged on 3.10 (R10.1)")
+silent(["C10", "C01"], L, "            (item if is_linetable else prev_item).line_offset == 0\n", "            (item.line_offset if is_linetable else prev_item.line_offset) == 0\n", "same side test")
+fire("C10", L, "    while (bytecode_offset < max_offset) or current_item_offset < len(items):\n",
+     "    while (bytecode_offset < max_offset) or current_item_offset < len(items):\n        if bytecode_offset >= max_offset:\n            for item in items[current_item_offset:]:\n                current_line += cast(int, item.line_offset)\n            offset_to_line[bytecode_offset] = current_line\n            break\n",
+     "entries behind the code folded into one (R10.5)")
+fire("C09", B, "        if index not in self._index_to_order:\n            self._index_to_order[index] = len(self._index_to_order)\n        wrong_position = (\n            self._index_to_order[index] != index or index in self._duplicates\n        )",
+     "        order = self._index_to_order.get(index)\n        if not order:\n            order = self._index_to_order[index] = len(self._index_to_order)\n        wrong_position = order != index or index in self._duplicates", "rank 0 is falsy (R09.7)")
+silent(["C14", "C11"], B, "        if index not in self._index_to_order:\n            self._index_to_order[index] = len(self._index_to_order)\n        wrong_position = (\n            self._index_to_order[index] != index or index in self._duplicates\n        )",
+       "        order = self._index_to_order.get(index)\n        if order is None:\n            order = self._index_to_order[index] = len(self._index_to_order)\n        wrong_position = order != index or index in self._duplicates", "one lookup, None test (C09's shape rules say exit 2, C14/C11 stay silent)")
+fire("C14", B, "        for i in range(len(self._args)):\n            if i not in self._index_to_order:", "        for i in range(min(len(self._args), max(self._index_to_order, default=0) + 1)):\n            if i not in self._index_to_order:", "unreferenced entries behind the last used one dropped (R14.T)")
+fire("C12", J, "def constant_value_from_json(value: object) -> object:", "SPECIALS = zip((\"inf\",), (float(\"inf\"),))\n\n\ndef constant_value_from_json(value: object) -> object:\n    for _n, _v in SPECIALS:\n        pass", "module-level one-shot iterator (R12.P)")
+silent(["C12", "C07"], J, "def constant_value_from_json(value: object) -> object:", "SPECIALS = tuple(zip((\"inf\",), (float(\"inf\"),)))\n\n\ndef constant_value_from_json(value: object) -> object:\n    for _n, _v in SPECIALS:\n        pass", "the same table as a tuple")
+fire("C07", H, "    return getattr(value, f.name) == default", "    return getattr(value, f.name) == default or not getattr(value, f.name)", "falsy values hidden as defaults (R07.4)")
+silent(["C07", "C16", "C15"], H, "    return getattr(value, f.name) == default", "    current = getattr(value, f.name)\n    return current == default", "same predicate through a local")
+fire("C15", J, "def strings_from_json(value: list) -> tuple:\n", "def strings_from_json(value: list) -> tuple:\n    for _s in value:\n        if isinstance(_s, str) and not _s.isprintable():\n            raise ValueError(_s)\n", "Unicode-database predicate on document data (R15.2)")
+fire("C16", "code_data/_cli.py", "        code = compile(file.read_bytes(), str(file), \"exec\")", "        code = compile(file.read_bytes(), str(file.resolve()), \"exec\")", "filename rewritten (R16.6)")
+silent(["C16"], "code_data/_cli.py", "        code = compile(file.read_bytes(), str(file), \"exec\")", "        code = compile(file.read_bytes(), os.fspath(file), \"exec\")", "fspath is the path as given")
+fire("C11", A, "        argcount=len(args.positional_only) + len(args.positional_or_keyword),", "        argcount=len(set(args.positional_only)) + len(args.positional_or_keyword),", "counts distinct names (R11.C)")
+fire("C06", J, "        value = copy(value)\n        if isinstance(value[\"constant\"], dict)", "        if isinstance(value[\"constant\"], dict)", "document mutated while loading (R06.M)")
+fire("C05", N, "    if isinstance(x, (Name, Varname, Cellvar)):", "    if isinstance(x, (Name, Varname)):", "Cellvar override survives while unused cells are dropped (R05.Z)")
